@@ -61,13 +61,17 @@ def validate(case):
         raise C.CaseInvalid("drain")
     if not isinstance(case.get("sndbuf", 1), int) or case.get("sndbuf", 1) < 1:
         raise C.CaseInvalid("sndbuf")
+    for cc in (case.get("conns") or [case]):
+        for k, v in (cc.get("faults") or {}).items():
+            if v != "EAGAIN" or not k.startswith("recv:") or not k[5:].isdigit():
+                raise C.CaseInvalid("faults")
 
 
 def conn_list(case):
     if case.get("conns"):
         return case["conns"]
     return [{"reqs": case["reqs"], "cuts": case.get("cuts") or [], "capacity": case.get("capacity"), "drain": case.get("drain", "all"),
-             "close_last": case.get("close_last")}]
+             "close_last": case.get("close_last"), "faults": case.get("faults")}]
 
 
 def to_scenario(case):
@@ -83,7 +87,9 @@ def to_scenario(case):
             segs.append(stream[prev:c])
             prev = c
         segs.append(stream[prev:])
-        conns.append({"segments": segs, "capacity": cc.get("capacity"), "drain": cc.get("drain", "all")})
+        conns.append({"segments": segs, "capacity": cc.get("capacity"), "drain": cc.get("drain", "all"),
+                      # a spurious readiness event: the socket was reported readable, recv() says EAGAIN, the data is still to come
+                      "faults": {k: v for k, v in (cc.get("faults") or {}).items()}})
     adj = dict(case.get("adj") or {})
     adj.setdefault("threads", 1)
     return {"adj": adj, "gran": case.get("gran", "sync"), "apps": case["apps"], "sndbuf": case.get("sndbuf", 1 << 20), "infinite_timeouts": True,
@@ -214,6 +220,9 @@ BIGCL = {"status": "200 OK", "mode": "write", "chunks": ["z" * 90, "y" * 40], "d
 STALL = {"status": "200 OK", "mode": "gen", "chunks": ["s" * 90, "t" * 10], "stall_after": 1}
 OKB = {"status": "200 OK", "mode": "list", "chunks": ["ok"], "declared_cl": 2}
 FIXED = [
+    # spurious readiness: recv() answers EAGAIN once (first read / a later read); the connection is served or closed, never left hanging
+    {"reqs": 2, "apps": [OKB], "adj": {"threads": 1}, "cuts": [40], "faults": {"recv:0": "EAGAIN"}},
+    {"reqs": 3, "apps": [OKB], "adj": {"threads": 2, "asyncore_use_poll": True}, "cuts": [50, 100], "faults": {"recv:1": "EAGAIN"}},
     {"reqs": 1, "apps": [STALL], "adj": {"threads": 1}, "sndbuf": 1 << 20, "capacity": 40, "drain": "all"},
     {"reqs": 1, "apps": [STALL], "adj": {"threads": 1, "asyncore_use_poll": True}, "sndbuf": 32, "capacity": 24, "drain": 8},
     {"conns": [{"reqs": 2}, {"reqs": 2}], "apps": [OKB], "adj": {"threads": 2}},
